@@ -65,10 +65,10 @@ Proof. exact ex_hextile. Qed.
 Theorem C07_roundtrip_zlib : forall s x y w h tgt ts fresh,
   st_wf s -> bypp_ok s -> 0 <= x -> 0 <= y -> 1 <= w -> 0 <= h -> x + w <= c_w s -> y + h <= c_h s ->
   rows_wf w h tgt -> Forall (Forall (px_ok (bypp_of s))) tgt ->
-  fresh = negb (zact_get s 0) ->
+  zs_ready c_zlibz c_zrlez s -> fresh = negb (zact_get s 0) ->
   let cap := if c_rawsz s <? w * h * bypp_of s then w * h * bypp_of s else c_rawsz s in
   dec_zlib x y w h s (ref_zlib (c_fmt s) fresh tgt ++ ts)
-  = Ok tt (set_fb (zact_set (set_rawsz s cap) 0 true) (blit_spec (c_fb s) x y tgt)) ts.
+  = Ok tt (set_fb (zlib_mark (set_rawsz s cap)) (blit_spec (c_fb s) x y tgt)) ts.
 Proof. exact roundtrip_zlib. Qed.
 
 Theorem C07_roundtrip_ultra : forall s x y w h tgt ts,
@@ -90,7 +90,7 @@ Theorem C07_roundtrip_zrle : forall ch s x y w h tgt ts fresh,
   st_wf s -> f_be (c_fmt s) = false -> cp_agree (c_fmt s) (variant_of s) -> fixed s 8 = true ->
   0 <= x -> 0 <= y -> 0 <= w -> 0 <= h -> x + w <= c_w s -> y + h <= c_h s ->
   rows_wf w h tgt -> Forall (Forall (cp_ok (variant_of s))) tgt ->
-  fresh = zrle_fresh s ->
+  zs_ready c_zrlez c_zlibz s -> fresh = zrle_fresh s ->
   let minsz := w * h * rbytes (variant_of s) * 2 + 4 in
   let cap := if c_rawsz s <? minsz then minsz else c_rawsz s in
   zlen (tiles_rows ch 0 (c_fmt s) false 64 (Z.to_nat (h / 64 + 1)) 0 w h tgt 0 []) <= cap - 4 ->
@@ -108,8 +108,8 @@ Theorem C07_zlib_then_zrle_refused : forall s x y w h z data ts,
   fixed s 11 = false -> zact_get s 0 = true ->
   dec_zrle x y w h s (TZ 5 true z data :: ts) = Fail.
 Proof.
-  intros s x y w h z data ts F Hz. unfold dec_zrle, bind, get_st, upd_st, rd_zrle_stream, rd_zblock, bind, get_st.
-  cbn [negb Z.eqb Pos.eqb]. unfold fixed in *. cbn [c_fix set_rawsz]. rewrite F.
+  intros s x y w h z data ts F Hz. unfold dec_zrle, bind, get_st, upd_st, rd_zrle_stream, rd_shared, rd_zblock, bind, get_st.
+  cbn [negb Z.eqb Pos.eqb andb]. unfold fixed in *. cbn [c_fix set_rawsz]. rewrite F.
   unfold zact_get in *. cbn [c_zact set_rawsz]. rewrite Hz. reflexivity.
 Qed.
 
